@@ -678,6 +678,12 @@ func (l *lexer) lexRedir() action {
 		}
 	case IO_NUMBER:
 		goto Redir
+	case WORD:
+		// a reserved word is recognised directly after the closing token
+		// of a compound command, e.g. "if (a) then"
+		if rw := l.tr(tok); rw != tok {
+			return l.lexCmd(tok)
+		}
 	}
 	return l.lexToken(tok)
 Redir:
